@@ -1131,6 +1131,16 @@ pub fn run_c18(ctx: &mut Ctx) {
             }
         }
     }
+    // long documents: the separator logic must not depend on how many links went before (255, 256,
+    // 257 ... links); fault positions are sampled with a stride here, the cost being quadratic otherwise
+    if level > 0 {
+        for (n, stride) in [(255usize, 41usize), (256, 43), (257, 37), (300, 53), (520, 97), (65, 7)] {
+            let doc: Vec<Link> = (0..n).map(|i| Link { target: format!("/n{}", i), attrs: if i % 64 == 63 { vec![("rt".into(), AttrKind::Plain("t".into()))] } else { vec![] } }).collect();
+            rep.distinct(fnv(describe(&doc).as_bytes()) ^ n as u64);
+            c18_doc(rep, &doc, &mut stats, stride);
+            rep.count("many_link_documents");
+        }
+    }
     for _ in 0..budget {
         let mut doc = gen_doc(&mut r, 2);
         if level == 0 {
